@@ -423,6 +423,16 @@ pub fn eval_cli(c: &CliCase, model: &Model, bin: &str, work: &str, uid: &str) ->
     };
     let out = format!("{}/cliout_{}", work, uid);
     clean_out(&out);
+    if exp.decision.starts_with("run") && stale_case(&c.req()) {
+        // an accepted run into a used location: an older, longer output file, or a directory with an old table, an old
+        // vectors file and chunk files of an earlier run (a refused run must leave nothing, so nothing is planted for those)
+        if c.out_is_dir() {
+            let _ = std::fs::create_dir_all(&out);
+            plant_counter_dir(&out, 6);
+        } else {
+            plant_file(&out, 200_000);
+        }
+    }
     let r = run_case(c, bin, work, uid, &out);
     clean_out(&out);
     judge_cli(c, &exp, &r)
@@ -498,6 +508,20 @@ pub fn judge_cli(c: &CliCase, exp: &Expected, r: &RunResult) -> Option<Fail> {
 // ------------------------------------------------------------------ generators
 
 fn seqs(r: &mut Rng, n: usize, k: usize, maxlen: usize, degenerate: bool) -> Vec<Vec<u8>> {
+    let mut v = seqs_ascii(r, n, k, maxlen, degenerate);
+    // now and then a character outside ASCII typed or pasted into a sequence line (valid UTF-8, so the reader takes it):
+    // each of its bytes is an ambiguous base
+    for s in v.iter_mut() {
+        if r.chance(1, 8) {
+            let ch: &[u8] = *r.pick(&["Ñ".as_bytes(), "é".as_bytes(), "µ".as_bytes(), "—".as_bytes(), "\u{a0}".as_bytes(), "Ａ".as_bytes()]);
+            let p = r.below(s.len() as u64 + 1) as usize;
+            s.splice(p..p, ch.iter().cloned());
+        }
+    }
+    v
+}
+
+fn seqs_ascii(r: &mut Rng, n: usize, k: usize, maxlen: usize, degenerate: bool) -> Vec<Vec<u8>> {
     (0..n)
         .map(|_| {
             let pick = if degenerate { r.below(8) } else { 4 + r.below(6) };
@@ -542,7 +566,11 @@ pub fn gen_cli(r: &mut Rng, degenerate: bool) -> CliCase {
                 let l = 640 * r.range(1, 3) as usize + k as usize - 1;
                 recs.push(gen::clean_seq(r, l, gen::Flavor::Uniform));
             }
-            let container = if degenerate && r.chance(1, 6) { "empty".into() } else { r.pick(&["fa", "fa", "fq", "fawrap:7", "fagz"]).to_string() };
+            let mut container: String = if degenerate && r.chance(1, 6) { "empty".into() } else { r.pick(&["fa", "fa", "fq", "fawrap:7", "fagz"]).to_string() };
+            if container.starts_with("fawrap") && recs.iter().any(|s| s.iter().any(|&b| b >= 0x80)) {
+                // wrapping counts bytes: it would cut a multi-byte character in two and the file would no longer be text
+                container = "fa".into();
+            }
             let recs = fix_fq(recs, &container);
             let stdin = r.chance(1, 4) && container != "fagz";
             CliCase { sub: Sub::Oligo { k, counts: r.chance(1, 2), header: r.chance(1, 2), preset, threads, stdin }, recs, container }
@@ -1069,7 +1097,10 @@ fn gen_history(r: &mut Rng) -> History {
             }
             2 => {
                 let k = r.range(7, 9);
-                CliCase { sub: Sub::Cov { k, bs: 5, bc: r.range(5, 8), mem: 6, counts: r.chance(1, 2), preset: "spc".into(), threads, alt: None }, recs: seqs(r, nrec, k as usize, 100, false), container: "fa".into() }
+                // a separate counting input in some runs (the table of an earlier run with another k or another source must not
+                // be taken for this run's)
+                let alt = if r.chance(1, 2) { let n = r.range(1, 6) as usize; Some(seqs(r, n, k as usize, 100, false)) } else { None };
+                CliCase { sub: Sub::Cov { k, bs: 5, bc: r.range(5, 8), mem: 6, counts: r.chance(1, 2), preset: "spc".into(), threads, alt }, recs: seqs(r, nrec, k as usize, 100, false), container: "fa".into() }
             }
             3 => {
                 let m = r.range(7, 9);
@@ -1187,4 +1218,32 @@ pub fn run_c03_cli(rep: &mut Report, tier: &str, seed: u64, model: &Model, bin: 
     }
     rep.exhaustive_spaces.push("CLI header for every accepted k (3..=7) x every delimiter preset x both writer paths".into());
     run_section_cli(rep, "cli-header", cases, model, bin, work, seed);
+}
+
+// ------------------------------------------------------------------ C12 through the CLI
+
+/// `kmertools comp cgr -k`: every accepted k x the square sizes the option takes from the bottom of its range (1, 2, 3) to large
+/// ones, the size left to its default, raw and normalised — the whole output against the Lean expectation
+pub fn run_c12_cli(rep: &mut Report, tier: &str, seed: u64, model: &Model, corpus_lines: &[String], bin: &str, work: &str) {
+    if sharded() {
+        return;
+    }
+    let corpus: Vec<CliCase> = corpus_lines.iter().filter_map(|l| CliCase::parse(l)).collect();
+    run_section_cli(rep, "corpus-cli", corpus, model, bin, work, seed);
+    if tier == "replay" {
+        return;
+    }
+    rep.rules.push("CLI: `comp cgr -k K [-v S] [-c]` for K in 3..=7, S in {default, 1, 2, 3, 16, 1000, 2^20}, raw and normalised, on small inputs with ambiguous bytes; the whole output vs the Lean expectation (end points at the requested size, frequencies of the oligo vector)".into());
+    let mut r = Rng::new(seed ^ 0xC12);
+    let mut cases = Vec::new();
+    for k in 3..=7u64 {
+        for v in [None, Some(1u64), Some(2), Some(3), Some(16), Some(1000), Some(1 << 20)] {
+            if k >= 6 && !(v == Some(1) || v.is_none()) && !r.chance(1, 3) {
+                continue;
+            }
+            let recs = seqs(&mut r, 3, k as usize, 60, false);
+            cases.push(CliCase { sub: Sub::Cgr { k: Some(k), counts: r.chance(1, 2), v, threads: *r.pick(&[1u64, 2, 4]) }, recs, container: "fa".into() });
+        }
+    }
+    run_section_cli(rep, "cli-kmer-cgr", cases, model, bin, work, seed);
 }
